@@ -71,9 +71,13 @@ def coveredRanges : List (RangeSite × Cover) := [
 def uncoveredRanges (sites : List RangeSite) : List RangeSite :=
   sites.filter (fun s => !(coveredRanges.any (fun c => decide (c.1 = s))))
 
-/-- Allowed uses of floats, package math, wall-clock time, goroutines (with the reason).  `n` is part
+/-- Allowed uses of floats, package math, wall-clock time, local-zone time constructors (`time.Unix…`, `time.Local`,
+    `time.Parse`), rendering of time values (`timefmt.*`), environment reads (`env.*`), goroutines (with the reason).  `n` is part
     of the key: one more float expression in a listed function fails the obligation. -/
 def allowedUses : List (UseSite × String) := [
+  ({ pkg := "app", fn := "init", kind := "env.UserHomeDir", n := 1 }, "DefaultNodeHome (where the node keeps its files); never reaches the state machine"),
+  ({ pkg := "x/clp/keeper", fn := "Keeper.DistributeDepthRewards", kind := "timefmt.String", n := 1 },
+   "ctx.BlockTime().String() stored as RewardPeriodStartTime: the header time is decoded from protobuf as UTC on every node, so the text does not depend on the process's zone (exercised by the far-environment worker)"),
   ({ pkg := "app", fn := "NewSifAppWithBlacklist", kind := "float", n := 1 }, "passes the constant DefaultConsensusNeeded to the oracle keeper"),
   ({ pkg := "x/admin/types", fn := "<package-level>", kind := "math.Inf", n := 3 }, "protobuf-generated `var _ = math.Inf`"),
   ({ pkg := "x/clp", fn := "BeginBlocker", kind := "time", n := 1 }, "telemetry only (ModuleMeasureSince)"),
